@@ -11,7 +11,7 @@ ID = "C14"
 LEVEL = "exploration"
 TECHNIQUE = "Hypothesis-generated rebuilds (as C13) into pre-populated destinations (correct, wrong-content-full-length, shorter and unrelated files), repeated 1..3 times; oracle: full before/after snapshots of search directories, metafiles and destination ; a source swapped for its decoy between two rebuilds"
 RULE = ("Cases: as C13 plus, per listed file, a pre-existing destination file that is correct / wrong content with the full length / "
-        "shorter (prefix) / shorter with wrong content / sparse with the full length / absent / an unrelated directory sitting at the file's path, unrelated files in the destination, and 1..3 repeated rebuilds. "
+        "shorter (prefix) / shorter with wrong content / sparse with the full length / absent / an unrelated directory sitting at the file's path, unrelated files in the destination, a listed file named like a staging sibling of another listed file (X and X.part / X.tmp / X~ ...; the sibling complete in the destination and absent from the sources), and 1..3 repeated rebuilds. "
         "Oracle after every rebuild (snapshots before/after): search directories and metafiles are name-for-name, byte-for-byte "
         "identical; every pre-existing destination file that had its full recorded length is byte-identical; no pre-existing "
         "destination file has disappeared; every file that is new or changed lies at a path some metafile assigns, has that entry's "
